@@ -206,6 +206,7 @@ def c10(A, ctx, tier):
     ctx.assume("equality 'up to solver tolerance' of converged results is numerical and not decided; "
                "kernel equality is decided on one 3x3 design with structural zeros (symbolic entries), "
                "one epoch, not for every sparsity pattern")
+    domain.r_msgnames(A, ctx, dict(floor=1))
     return dict(explanation="storage independence: CSC triples are "
                 "passed in (data, indptr, indices) order at every call site; every sparse/"
                 "dense dispatch calls a sibling pair with corresponding arguments; inputs are "
@@ -228,6 +229,7 @@ def c13(A, ctx, tier):
     # an accepted composition must not fail inside compiled code: the datafit accessors every accepted
     # cell calls (Lipschitz constants, gradients; dense and CSC) stay inside their arrays on tall and wide designs
     kernels.r_accessor_eq(A, ctx, dict(floor=40), rule="R-ACCESSOR-BOUNDS")
+    domain.r_msgnames(A, ctx, dict(floor=1))
     return dict(explanation="every cell of the solver x datafit x penalty x storage x knob "
                 "matrix is classified statically: refused by validation, or accepted with "
                 "every slot call / attribute read of compiled code resolving to a real member "
